@@ -294,6 +294,16 @@ func TestVerifDriver(t *testing.T) {
 			r.Read(d)
 		}
 		emit("shift.b", M{"curve": name, "k": vInts(pad32(ks)), "d": vInts(d)})
+		if k < 12 && name == "secp256k1" {
+			// secp256k1's endomorphism: [lambda]P = (beta*x, y) has the SAME y as P and another x (and [lambda^2]P likewise;
+			// with the negations: same y up to sign).  Shifts lambda*k, lambda^2*k, -lambda*k add two such points.
+			lam, _ := new(big.Int).SetString("5363ad4cc05c30e0a5261c028812645a122e22ea20816678df02967c1b23bd72", 16)
+			lk := new(big.Int).Mod(new(big.Int).Mul(lam, ks), nn)
+			llk := new(big.Int).Mod(new(big.Int).Mul(lam, lk), nn)
+			for _, v := range []*big.Int{lk, llk, new(big.Int).Sub(nn, lk), new(big.Int).Sub(nn, llk)} {
+				emit("shift.b", M{"curve": name, "k": vInts(pad32(ks)), "d": vInts(pad32(v))})
+			}
+		}
 		{ // key and shift by their leading byte (0x00, an ASCII digit, 0x7f, 0x80 ...), and sums just above the group order
 			lead := []byte{0x00, 0x30, 0x31, 0x20, 0x7f, 0x80, 0x01, 0xff}[k%8]
 			k2, d2 := pad32(ks), append([]byte{}, d...)
@@ -311,6 +321,15 @@ func TestVerifDriver(t *testing.T) {
 			if ks.Cmp(curveByName(other).Params().N) < 0 {
 				emit("shift.b", M{"curve": other, "k": vInts(pad32(ks)), "d": vInts(d)})
 			}
+		}
+		if k < 10 { // long chains: both derivation orders far below the master key (whatever counts levels must not run out or wrap)
+			lp := make([]int, []int{254, 255, 256, 257, 512}[k%5])
+			for i := range lp {
+				lp[i] = r.Intn(1 << 20)
+			}
+			ls := make([]byte, 32)
+			r.Read(ls)
+			emit("shift.derive", M{"curve": name, "seed": vInts(ls), "path": lp, "index": k})
 		}
 		seed := make([]byte, 16+r.Intn(49))
 		r.Read(seed)
